@@ -45,6 +45,9 @@ var c13StmtFrags = []struct{ name, text string }{
 	{"illegal character backslash", "a = 1 \\ + 2;"},
 	{"illegal character NUL between tokens", "a = 1 \x00 + 2;"},
 	{"illegal character NUL between statements", "a = 1;\x00 b = 2;"},
+	{"illegal character NUL as the very last character", "a = 1;\x00"},
+	{"illegal character NUL ending a trailing comment", "a = 1; // c\x00"},
+	{"illegal character NUL after the last brace", "if (a) { b = 1; }\x00"},
 	{"illegal character NUL in a comment", "a = 1; // c\x00 \n b = 2;"},
 	{"illegal character SOH", "a = 1 \x01 + 2;"},
 	{"illegal character vertical tab", "a = 1 \x0b + 2;"},
